@@ -1018,6 +1018,8 @@ def m_default(it, ctx, a, m, f):
             return Adt(head, 'BlockStmt', [m_default(it, ctx, [], None, '<BlockStmt as Default>::default')])
         if head == 'Pat' or head == 'Expr':
             return Adt(head, 'Invalid', [Adt('Invalid', None, [Adt('Span', None, [0, 0], ['lo', 'hi'])], ['span'])])
+    if head in it.T.enums:
+        return Opaque('default:' + head)
     raise Unsupported('Default for ' + ty)
 
 
@@ -1028,30 +1030,27 @@ def m_span(it, ctx, a, m, f):
 
 
 def _span_of(it, v):
+    v = deref(v)
     if isinstance(v, Adt):
         if v.ty == 'Span':
             return v
         if v.ty == 'Option':
-            # Spanned for Option<T>: DUMMY when None
-            return _span_of(it, deref(v.fields[0])) if v.variant == 'Some' else Adt('Span', None, [0, 0], ['lo', 'hi'])
+            return _span_of(it, v.fields[0]) if v.variant == 'Some' else Adt('Span', None, [0, 0], ['lo', 'hi'])
+        sf = it.T.span_fields.get(v.ty)
+        if sf and v.names:
+            if 'span' in sf:
+                return _span_of(it, v.get(sf['span']))
+            lo = _span_of(it, v.get(sf['lo'])); hi = _span_of(it, v.get(sf['hi']))
+            return Adt('Span', None, [lo.fields[0], hi.fields[1]], ['lo', 'hi'])
         if v.names and 'span' in v.names:
             return v.get('span')
-        if v.ty == 'BindingIdent':
-            # #[span] is on `id`; when type_ann exists span covers both. swc: BindingIdent span = id.span (type ann extends hi)
-            idsp = v.get('id').get('span'); ta = v.get('type_ann')
-            if is_some(ta):
-                return Adt('Span', None, [idsp.fields[0], _span_of(it, deref(ta.fields[0])).fields[1]], ['lo', 'hi'])
-            return idsp
         if v.ty == 'ExprOrSpread':
-            e = _span_of(it, deref(v.get('expr'))); sp = v.get('spread')
+            e = _span_of(it, v.get('expr')); sp = v.get('spread')
             if is_some(sp):
                 return Adt('Span', None, [deref(sp.fields[0]).fields[0], e.fields[1]], ['lo', 'hi'])
             return e
-        if v.ty == 'JSXMemberExpr' or v.ty == 'JSXNamespacedName' and not (v.names and 'span' in v.names):
-            a0 = _span_of(it, deref(v.fields[0])); a1 = _span_of(it, deref(v.fields[-1]))
-            return Adt('Span', None, [a0.fields[0], a1.fields[1]], ['lo', 'hi'])
         if v.variant is not None and len(v.fields) == 1:
-            return _span_of(it, deref(v.fields[0]))
+            return _span_of(it, v.fields[0])
     raise Unsupported('Spanned for ' + repr(v)[:80])
 
 
@@ -1174,10 +1173,14 @@ _TAGS = {}
 
 def _tags(which):
     if which not in _TAGS:
-        paths = glob.glob(os.path.expanduser('~/.cargo/registry/src/*/css_dataset-0.3.0/src/tags.rs'))
-        src = open(paths[0]).read()
-        mm = re.search(r'pub static ' + which + r': phf::Set<&\'static str> = phf_set! \{(.*?)\};', src, re.S)
-        _TAGS[which] = re.findall(r'"([^"]+)"', mm.group(1))
+        root = glob.glob(os.path.expanduser('~/.cargo/registry/src/*/css_dataset-0.3.0'))[0]
+        if which == 'SVG_TAGS':
+            import json as _json
+            _TAGS[which] = list(_json.load(open(root + '/vendor/svg-tags/lib/svg-tags.json')))
+        else:
+            src = open(root + '/src/tags.rs').read()
+            mm = re.search(r'pub static ' + which + r': phf::Set<&\'static str> = phf::phf_set! \{(.*?)\};', src, re.S)
+            _TAGS[which] = re.findall(r'"([^"]+)"', mm.group(1))
     return _TAGS[which]
 
 
@@ -1208,6 +1211,11 @@ def m_regex_is_match(it, ctx, a, m, f):
         fn = fns[key]
         ctx.__dict__.setdefault('regex_calls', []).append((rx.data['id'], s))
         return fn(*[bv(c, CHW) for c in s.cs]) if n else fn
+    if rx.data.get('kind') == 'py':
+        if not s.is_concrete():
+            raise Unsupported('concrete regex on a symbolic string')
+        import re as _re
+        return _re.search(rx.data['pattern'], s.py()) is not None
     raise Unsupported('regex kind')
 
 
